@@ -100,3 +100,11 @@ Theorem C05_polarity_raises_iff_degenerate : forall A, wf_alg A = true ->
   (sgn A (alg_len A - 1) (alg_len A - 1) = 0 <-> In 0 (a_sig A)).
 Proof. exact sgn_pss_zero_iff. Qed.
 Print Assumptions C05_polarity_raises_iff_degenerate.
+
+(* ---- the tie to today's source: codegen_product as regenerated from /repo/kingdon/codegen.py
+   (Gen/Kernels.v) IS the model function the theorems above speak about, for every coefficient type ---- *)
+From KV Require Import Gen.Kernels Bridge.Kernels.
+Theorem C05_product_kernel_is_todays_source : forall (R : Type) (O : ops R) sfun filt kout (x y : mv R),
+  gen_codegen_product O sfun filt kout x y = codegen_product O sfun filt kout x y.
+Proof. exact @br_codegen_product. Qed.
+Print Assumptions C05_product_kernel_is_todays_source.
